@@ -155,7 +155,7 @@ Theorem mm_skL s : forall f a others,
 Proof.
   induction s as [|s' IH|s' IH]; intros f a others Hf Hne Ha Hoth Htl Hok.
   - (* numbers: the loose and the strict fragment coincide *)
-    destruct (mm_sk SNum f (a :: others)) as (c & H1 & H2 & H3 & H4); auto.
+    destruct (mm_sk SNum f (a :: others)) as (c & H1 & H2 & H3 & H4 & _); auto.
     { destruct others; [congruence|cbn; lia]. }
     exists c. repeat split; auto.
   - (* ---- lists ---- *)
@@ -298,3 +298,35 @@ Proof.
         destruct (0 <=? i) eqn:E; [|lia]. apply get_ok in Hy. lia.
       * eapply mapM_ok_forallb; [|exact HF]. cbn. intros i y Hy. apply get_ok in Hy. lia.
 Qed.
+
+Theorem mergemany_option_mix_pf : forall s a others,
+  others <> [] -> has_sk s a = true -> Forall (fun c => has_skL s c = true) others ->
+  Forall (fun c => valid_b c = true) (a :: others) ->
+  exists c, mergemany (a :: others) = Ok c /\ has_sk s c = true /\ valid_b c = true /\
+            Forall (fun x => to_list x = Ok (vals x)) (a :: others) /\
+            to_list c = Ok (concat (map (fun x => map (deep_cast (leaf_dt c)) (vals x)) (a :: others))).
+Proof.
+  intros s a others Hne Ha Hoth Hv.
+  assert (Htl : Forall tl_ok (a :: others)).
+  { apply Forall_forall. intros x Hx.
+    assert (HL : has_skL s x = true).
+    { destruct Hx as [<-|Hx]; [apply has_sk_loose; exact Ha|eapply Forall_forall in Hoth; eauto]. }
+    destruct (skL_own _ _ HL) as [s0 H0]. eapply valid_tl_ok_sk; eauto. eapply Forall_forall in Hv; eauto. }
+  assert (Hok : sk_ok s = true) by (eapply valid_sk_ok; [exact Ha|exact (Forall_inv Hv)]).
+  destruct (mm_skL s (mm_fuel (a :: others)) a others) as (c & Hc & Hs & Ht & Hval); auto.
+  { pose proof (need_le_csize _ _ Ha). unfold mm_fuel. cbn [fold_right length]. lia. }
+  exists c. repeat split; auto.
+  eapply Forall_impl; [|exact Htl]. intros x. apply tl_ok_vals.
+Qed.
+
+(* non-vacuity: [[1],None] (option over ListArray of int16) ++ [[2,3]] (plain ListOffset of bool) ++ [None] (byte-masked) *)
+Example mergemany_option_mix_example :
+  let a := IndexedOption I32 [0; -1] (ListA I64 [0] [1] (Numpy DInt16 [1] [DZ 1])) in
+  let b := ListOffset U32 [0; 2] (Numpy DBool [2] [DZ 1; DZ 0]) in
+  let c := ByteMasked [0] true (ListOffset I64 [0; 0] (Numpy DInt16 [0] [])) in
+  has_sk (SIx (SList SNum)) a = true /\ has_skL (SIx (SList SNum)) b = true /\ has_skL (SIx (SList SNum)) c = true /\
+  has_sk (SIx (SList SNum)) b = false /\
+  valid_b a = true /\ valid_b b = true /\ valid_b c = true /\
+  rmap to_list (mergemany [a; b; c])
+  = Ok (Ok [VList [VNum (DZ 1)]; VNone; VList [VNum (DZ 1); VNum (DZ 0)]; VNone]).
+Proof. vm_compute. repeat split. Qed.
